@@ -12,7 +12,7 @@ import (
 func init() {
 	register(&propInfo{
 		ID:          "C18",
-		Explanation: "Path, lock-order and site analysis of client shutdown: (R18.1) the WebSocket closer signals stop and then waits for the loop's exit signal; the loop's stop arm returns on every path; (R18.2) in the redial goroutine every dial is preceded, after the back-off sleep, by a check of the loop's context whose done branch returns, every path from a dial to the socket swap passes such a check, and that context is the one cancelled when the loop exits; (R18.3) the lock-order graph over all library mutexes is acyclic and (R18.5) no mutex stays locked on a return path; (R18.4) closers of HTTP and custom-transport clients only close a channel made by their constructor; (R18.6) every loop exit fails in-flight calls, closes sinks, raises the exit signal and cancels the context; the failer empties the table; every enqueue of a request (including the cancel notification) is a select alternative to the exit signal, so callers are released; no deferred cleanup can block (the ping stopper does not wait). (R18.8) the stream buffering goroutine always keeps receiving (the exit cleanup needs the sink-table lock held by the executor during hand-over). (R18.9) a sink is removed from the table, under its lock, before it is closed. (R18.10) the buffering goroutine's exit test looks at the buffer itself. (R18.11) the redial dials with no library mutex held. (R18.12) every socket write is bounded: it is preceded, on every path on which a timeout is configured, by a SetWriteDeadline of a non-zero time that is not lifted again (searched through helpers and callers); WriteControl must be handed a non-zero deadline. The loop writes requests itself and takes the write lock in its dead-peer and stop arms, so an unbounded write parked on a silent peer blocks calls, detection and closer.",
+		Explanation: "Path, lock-order and site analysis of client shutdown: (R18.1) the WebSocket closer signals stop and then waits for the loop's exit signal; the loop's stop arm returns on every path; (R18.2) in the redial goroutine every dial is preceded, after the back-off sleep, by a check of the loop's context whose done branch returns, every path from a dial to the socket swap passes such a check, and that context is the one cancelled when the loop exits; (R18.3) the lock-order graph over all library mutexes is acyclic and (R18.5) no mutex stays locked on a return path; (R18.4) closers of HTTP and custom-transport clients only close a channel made by their constructor; (R18.6) every loop exit fails in-flight calls, closes sinks, raises the exit signal and cancels the context; the failer empties the table; every enqueue of a request (including the cancel notification) is a select alternative to the exit signal, so callers are released; no deferred cleanup can block (the ping stopper does not wait). (R18.8) the stream buffering goroutine always keeps receiving (the exit cleanup needs the sink-table lock held by the executor during hand-over). (R18.9) a sink is removed from the table, under its lock, before it is closed. (R18.10) the buffering goroutine's exit test looks at the buffer itself. (R18.11) the redial dials with no library mutex held. (R18.12) every socket write is bounded: it is preceded, on every path on which a timeout is configured, by a SetWriteDeadline of a non-zero time that is not lifted again (searched through helpers and callers); WriteControl must be handed a non-zero deadline. The loop writes requests itself and takes the write lock in its dead-peer and stop arms, so an unbounded write parked on a silent peer blocks calls, detection and closer. (R18.13) the accept arm answers or registers every accepted request on every path.",
 		NotDecided:  "A loop blocked inside a socket write to a blackholed peer (no write deadline is set by the library), helper goroutines parked on a bare send when the loop exits mid-read (observations in DESIGN.md), real schedules.",
 		Assumptions: []string{"lock identity is the mutex field (type-based)"},
 		Run:         runC18,
@@ -67,6 +67,8 @@ func runC18(c *Ctx) {
 	c.rule("R18.4", "HTTP/custom closers only close a channel made by their constructor")
 	c.rule("R18.12", "every socket write is bounded by a write deadline set before it: the stop arm runs on the connection loop and takes the write lock, so a write parked on a silent peer keeps the closer from returning")
 	c.boundedSocketWrites("R18.12")
+	c.rule("R18.13", "every call in flight returns after a close: the connection loop answers or registers every request it accepted, on every path (a notification whose write failed would otherwise keep its caller blocked for good)")
+	c.acceptArmRule("R18.13")
 	c.rule("R18.11", "the redial dials with no library mutex held (a stalled dial under the write lock wedges the connection loop, so the closer never returns)")
 	c.dialWithoutLocks("R18.11")
 	c.rule("R18.5", "no mutex stays locked on a return path")
